@@ -6,26 +6,26 @@ func registerProperty(p *Property) { propTable[p.ID] = p }
 
 func init() {
 	registerProperty(&Property{
-		ID:    "C01",
-		Rules: []string{"codec-symmetry", "keyword-table", "zero-preserving", "proxy-complete", "ref-key", "escape", "name-verbatim", "marshal-receiver"},
-		Explanation: "Decides the table agreements that JSON round-trip losslessness rests on: for every kind with hand-written codecs, every component is both encoded and decoded (codec-symmetry); every member the Swagger 2.0 / draft-4 meta-schemas define for a kind has a byte-identical JSON field or hand-coded holder (keyword-table); numeric keywords are pointer-typed and no omitempty sits on a non-pointer numeric (zero-preserving); anonymous encode proxies carry and populate every member of the component they replace (proxy-complete); writer and reader of $ref/$schema agree on the member name (ref-key).",
-		NotCovered: "round-trip equality of values (number formatting, free-form payloads, escaping of member names - see C06), deep nesting and combinations; x- members on externalDocs/xml objects (no holder in the types; informational note only)",
+		ID:          "C01",
+		Rules:       []string{"codec-symmetry", "keyword-table", "zero-preserving", "proxy-complete", "ref-key", "escape", "name-verbatim", "marshal-receiver", "make-append-json", "dispatch-admits-shortest", "absence-is-nil"},
+		Explanation: "Decides the table agreements that JSON round-trip losslessness rests on: for every kind with hand-written codecs, every component is both encoded and decoded (codec-symmetry); every member the Swagger 2.0 / draft-4 meta-schemas define for a kind has a byte-identical JSON field or hand-coded holder (keyword-table); numeric keywords are pointer-typed and no omitempty sits on a non-pointer numeric (zero-preserving); anonymous encode proxies carry and populate every member of the component they replace (proxy-complete); writer and reader of $ref/$schema agree on the member name (ref-key). Added after seeding round 2: encoders emit user-chosen member names exactly (name-verbatim, both directions); the decoded $ref text reaches the reference parser unrewritten (ref-key text-verbatim); a slice filled by append starts empty (make-append-json); first-byte dispatches look at every input of two bytes or more, so {} and [] are dispatched (dispatch-admits-shortest); a decoder gives up early only on a nil test, never because the decoded value equals a zero constant (absence-is-nil).",
+		NotCovered:  "round-trip equality of values (number formatting, free-form payloads, escaping of member names - see C06), deep nesting and combinations; x- members on externalDocs/xml objects (no holder in the types; informational note only)",
 	})
 }
 
 func init() {
 	registerProperty(&Property{
-		ID:    "C19",
-		Rules: []string{"required-emitted", "keyword-table", "escape", "codec-no-panic", "ref-clear", "containers"},
-		Explanation: "Decides the per-member half of validity preservation: for every kind and every member its meta-schema definition(s) require, the encoder cannot drop the member from a value decoded from a valid document (decided from the Go type, omitempty, the proxy special-casing in MarshalJSON partially evaluated under the definition's own enum constraints, and the definition's constraint on the member); and no member is renamed into something the closed definitions reject (keyword-table).",
+		ID:          "C19",
+		Rules:       []string{"required-emitted", "keyword-table", "escape", "codec-no-panic", "ref-clear", "containers", "dispatch-admits-shortest"},
+		Explanation: "Decides the per-member half of validity preservation: for every kind and every member its meta-schema definition(s) require, the encoder cannot drop the member from a value decoded from a valid document (decided from the Go type, omitempty, the proxy special-casing in MarshalJSON partially evaluated under the definition's own enum constraints, and the definition's constraint on the member); and no member is renamed into something the closed definitions reject (keyword-table). dispatch-admits-shortest: the Or-type decoders dispatch the two-byte texts {} and [] like any other object/array (an empty items object would otherwise re-encode as null).",
 		NotCovered:  "validity of everything else (formats, oneOf selection, uniqueness), validity of expanded schemas' contents; the expansion half (holder either pure $ref or dereferenced with Ref cleared) is decided by ref-clear/containers under C03",
 	})
 }
 
 func init() {
 	registerProperty(&Property{
-		ID:    "C20",
-		Rules: []string{"copy-map", "clear-exact"},
+		ID:          "C20",
+		Rules:       []string{"copy-map", "clear-exact"},
 		Explanation: "The validation accessors are straight-line field copies and guarded clears, so their input/output relation is their shape. copy-map abstracts every SetValidations/Validations/WithValidations body (following delegation) to a map destination-field <- source-field over the field universe taken from the types and requires the identity on the carrier's validation set and no other write. clear-exact checks every Clear*Validations: each (guard, record, clear) triple names one field, reports its JSON keyword, records before clearing, stores the zero value; the cleared set equals the draft-4 family intersected with the carrier; nothing else is written; callbacks are applied by a deferred apply over the same slice; apply calls every callback once per record; Has*Validations reads only fields the matching clear clears.",
 		NotCovered:  "aliasing (the set returned by Validations shares pointers with the receiver); HasXValidations being true before a clear for every member of the family (the property only requires it false afterwards)",
 	})
@@ -33,59 +33,59 @@ func init() {
 
 func init() {
 	registerProperty(&Property{
-		ID:    "C15",
-		Rules: []string{"lookup-table", "marshal-receiver"},
-		Explanation: "Decides, for every hand-written JSONLookup, agreement with the encoder's tables: a kind whose encoder emits vendor extensions consults Extensions[token]; every tag-driven component the encoder emits is consulted with jsonpointer.GetForToken (maps are indexed by the token); between two consultations a not-found failure falls through (the early error return is guarded by the negated test on the error text, whose constant is a prefix of the format string the pinned jsonpointer uses at its struct-field-not-found site, read from the module cache); the last consultation's result is returned; computed member names (default, decimal status codes) are answered; every kind C15 lists has a JSONLookup.",
+		ID:          "C15",
+		Rules:       []string{"lookup-table", "marshal-receiver", "lookup-guard"},
+		Explanation: "Decides, for every hand-written JSONLookup, agreement with the encoder's tables: a kind whose encoder emits vendor extensions consults Extensions[token]; every tag-driven component the encoder emits is consulted with jsonpointer.GetForToken (maps are indexed by the token); between two consultations a not-found failure falls through (the early error return is guarded by the negated test on the error text, whose constant is a prefix of the format string the pinned jsonpointer uses at its struct-field-not-found site, read from the module cache); the last consultation's result is returned; computed member names (default, decimal status codes) are answered; every kind C15 lists has a JSONLookup. lookup-guard: where a JSONLookup restricts a map consultation by a predicate on the member name, the decoders file names into that map under the same predicate; where it delegates to an alternative of the receiver depending on the receiver's state, the encoder emits that alternative under the same condition.",
 		NotCovered:  "value equality of what is returned; $ref members (excluded by the property); escape decoding of tokens and reflection-based lookup on plain structs (jsonpointer/swag, trusted)",
 	})
 }
 
 func init() {
 	registerProperty(&Property{
-		ID:    "C06",
-		Rules: []string{"escape", "fragment-disjoint", "map-order", "total-order", "encode-readonly"},
-		Explanation: "Decides the structural conditions of well-formed, collision-free, deterministic encoding: in every function reachable from a MarshalJSON method, whatever is written to an output buffer or returned as bytes is a constant, an encoder result (json.Marshal, MarshalJSON, strconv quoting, ConcatJSON of such) or a constant package table (escape); fragments concatenated into one object have pairwise disjoint tagged names, no tagged name enters the x- / path key space, user-keyed maps pass a constant-prefix filter, and Schema.ExtraProps is only filled after every tagged name, $ref, $schema and x- key has been removed (fragment-disjoint); a range over a map only feeds another map or a slice sorted before use (map-order); sort comparators break ties (total-order).",
+		ID:          "C06",
+		Rules:       []string{"escape", "fragment-disjoint", "map-order", "total-order", "encode-readonly", "name-verbatim"},
+		Explanation: "Decides the structural conditions of well-formed, collision-free, deterministic encoding: in every function reachable from a MarshalJSON method, whatever is written to an output buffer or returned as bytes is a constant, an encoder result (json.Marshal, MarshalJSON, strconv quoting, ConcatJSON of such) or a constant package table (escape); fragments concatenated into one object have pairwise disjoint tagged names, no tagged name enters the x- / path key space, user-keyed maps pass a constant-prefix filter, and Schema.ExtraProps is only filled after every tagged name, $ref, $schema and x- key has been removed (fragment-disjoint); a range over a map only feeds another map or a slice sorted before use (map-order); sort comparators break ties (total-order). name-verbatim: encoders store map keys of the model into the output under the key itself, not a rewriting of it.",
 		NotCovered:  "validity of free-form payload encoding (encoding/json), byte-identity across runs as an observed fact, duplicate keys arising from case-insensitive matching in encoding/json's decoder",
 	})
 }
 
 func init() {
 	registerProperty(&Property{
-		ID:    "C14",
-		Rules: []string{"gob-shapes", "gob-proxy-symmetry", "gob-via-json", "codec-must-pass"},
-		Explanation: "Which Go shapes gob cannot carry is a property of types: gob-shapes walks the type graph from the types the property names exactly as encoding/gob does (exported fields, through pointers, slices, maps and embedded structs; at a type with GobEncode it continues from the proxy value that body hands to the encoder, method-less aliases included) and reports every position of a lossy shape with a JSON-visible effect: L1 pointer to a basic type (pointed-to zero omitted, comes back nil), L2 interface{} position (empty container comes back nil), L4 struct with only unexported state and no codec; and checks the gob.Register calls. gob-proxy-symmetry checks every GobEncode/GobDecode pair: same proxy type, every receiver component covered on both sides, every proxy field set and consumed, and the nil / empty / non-empty security states distinguished on both sides. gob-via-json reduces Ref's gob law to its JSON law.",
+		ID:          "C14",
+		Rules:       []string{"gob-shapes", "gob-proxy-symmetry", "gob-via-json", "codec-must-pass", "make-append"},
+		Explanation: "Which Go shapes gob cannot carry is a property of types: gob-shapes walks the type graph from the types the property names exactly as encoding/gob does (exported fields, through pointers, slices, maps and embedded structs; at a type with GobEncode it continues from the proxy value that body hands to the encoder, method-less aliases included) and reports every position of a lossy shape with a JSON-visible effect: L1 pointer to a basic type (pointed-to zero omitted, comes back nil), L2 interface{} position (empty container comes back nil), L4 struct with only unexported state and no codec; and checks the gob.Register calls. gob-proxy-symmetry checks every GobEncode/GobDecode pair: same proxy type, every receiver component covered on both sides, every proxy field set and consumed, and the nil / empty / non-empty security states distinguished on both sides. gob-via-json reduces Ref's gob law to its JSON law. make-append: no gob codec makes a slice with a non-zero length and then appends to it.",
 		NotCovered:  "equality of values after transport; L3 (nil-versus-empty slices whose difference is JSON-visible) beyond the security padding codec; behaviour of encoding/gob itself",
 	})
 	registerProperty(&Property{
-		ID:    "C13",
-		Rules: []string{"ref-key", "gob-via-json", "ref-opaque", "codec-must-pass"},
-		Explanation: "Canonicalisation and classification live in jsonreference and net/url (trusted). Decided, as necessary conditions of the JSON/gob half: writer and reader of $ref use the same member name and Ref.MarshalJSON's constant outputs parse (at analysis time) to {} or an object with exactly that member (ref-key); Ref's gob codec wraps its JSON codec and propagates every error (gob-via-json); no function of the package stores into jsonreference.Ref's classification flags or builds one by literal, and every spec.Ref literal wraps a parsed reference, so classification stays a function of the parsed text (ref-opaque).",
+		ID:          "C13",
+		Rules:       []string{"ref-key", "gob-via-json", "ref-opaque", "codec-must-pass"},
+		Explanation: "Canonicalisation and classification live in jsonreference and net/url (trusted). Decided, as necessary conditions of the JSON/gob half: writer and reader of $ref use the same member name and Ref.MarshalJSON's constant outputs parse (at analysis time) to {} or an object with exactly that member (ref-key); Ref's gob codec wraps its JSON codec and propagates every error (gob-via-json); no function of the package stores into jsonreference.Ref's classification flags or builds one by literal, and every spec.Ref literal wraps a parsed reference, so classification stays a function of the parsed text (ref-opaque). ref-key also requires that Ref.fromMap hands the decoded member text itself to the reference parser.",
 		NotCovered:  "idempotence of canonicalisation, equality of decoded references, classification correctness: all value-level inside jsonreference/net/url",
 	})
 }
 
 func init() {
 	registerProperty(&Property{
-		ID:    "C03",
-		Rules: []string{"visit", "containers", "ref-clear", "ref-store", "opts-copy-complete", "cut-check"},
-		Explanation: "Decides the per-site disciplines 'only cycle cut-points remain' rests on. visit: every access path from Schema to a nested Schema (enumerated from the types, so a new schema-bearing field adds an obligation) is passed to the schema expander and the dereferenced result stored back at the same path. containers: every holder of refable elements (Swagger, PathItem, Operation, Parameter, Response; positions enumerated from the types) is handed to the matching expander, and by-value copies are written back. ref-clear (go/cfg must-analysis): every path from a completed dereference to a successful return stores the zero Ref into the holder. ref-store: every other store into a schema's Ref is a rewrite of a normalised reference against the root context (basePath, rootID) - or the normalised reference itself under AbsoluteCircularRef - and is control-dependent on isCircular having returned true, on skip-schemas mode, or on the empty-root-ref guard.",
+		ID:          "C03",
+		Rules:       []string{"visit", "containers", "ref-clear", "ref-store", "opts-copy-complete", "cut-check", "location-prefix"},
+		Explanation: "Decides the per-site disciplines 'only cycle cut-points remain' rests on. visit: every access path from Schema to a nested Schema (enumerated from the types, so a new schema-bearing field adds an obligation) is passed to the schema expander and the dereferenced result stored back at the same path. containers: every holder of refable elements (Swagger, PathItem, Operation, Parameter, Response; positions enumerated from the types) is handed to the matching expander, and by-value copies are written back. ref-clear (go/cfg must-analysis): every path from a completed dereference to a successful return stores the zero Ref into the holder. ref-store: every other store into a schema's Ref is a rewrite of a normalised reference against the root context (basePath, rootID) - or the normalised reference itself under AbsoluteCircularRef - and is control-dependent on isCircular having returned true, on skip-schemas mode, or on the empty-root-ref guard. location-prefix: a location (URL text, URL path) is used as a string prefix of another only where it is known to be empty or slash-terminated, so the relative $ref kept at a cut-point is cut at a segment boundary.",
 		NotCovered:  "that a kept $ref actually resolves to a node on a cycle; that denormalizeRef/rebase compute the right relative form; determinism of the output beyond C06's rules",
 	})
 }
 
 func init() {
 	registerProperty(&Property{
-		ID:    "C04",
-		Rules: []string{"cut-check", "nilres", "no-panic-path", "ptr-fill-guard", "typed-nil-guard"},
-		Explanation: "Termination over all graphs is not decidable here; decided are the mechanism's necessary conditions. cut-check: every cyclic SCC of the package's static call graph is classified call site by call site as structural descent (argument strictly below the callee's parameter, parent stack passed unchanged) or reference following (on every path to the recursive call isCircular(k, base, parentRefs...) returned false for a normalised k, and the call receives append(parentRefs, k.String()) for that same k); recursion outside the family, or a cycle of pass-through calls, is a violation; isCircular uses one normalised key for memo lookup, stack comparison and memo store. nilres: a nil *Schema result implies a provably non-nil error, and results are dereferenced only after a plain err != nil return or under an explicit != nil guard. no-panic-path: the panic-capable constructs (Must*, panic, unchecked type assertions, unguarded index/slice expressions, stores into possibly-nil maps) reachable from the exported Expand*/Resolve* entry points equal an audited table.",
+		ID:          "C04",
+		Rules:       []string{"cut-check", "nilres", "no-panic-path", "ptr-fill-guard", "typed-nil-guard", "err-before-use-expand"},
+		Explanation: "Termination over all graphs is not decidable here; decided are the mechanism's necessary conditions. cut-check: every cyclic SCC of the package's static call graph is classified call site by call site as structural descent (argument strictly below the callee's parameter, parent stack passed unchanged) or reference following (on every path to the recursive call isCircular(k, base, parentRefs...) returned false for a normalised k, and the call receives append(parentRefs, k.String()) for that same k); recursion outside the family, or a cycle of pass-through calls, is a violation; isCircular uses one normalised key for memo lookup, stack comparison and memo store. nilres: a nil *Schema result implies a provably non-nil error, and results are dereferenced only after a plain err != nil return or under an explicit != nil guard. no-panic-path: the panic-capable constructs (Must*, panic, unchecked type assertions, unguarded index/slice expressions, stores into possibly-nil maps) reachable from the exported Expand*/Resolve* entry points equal an audited table. err-before-use-expand: a pointer result that comes with an error is dereferenced only where that error is known to be nil or the pointer known non-nil (or was repaired on the error path).",
 		NotCovered:  "that the loop variant is bounded (id-driven base path growth makes canonical keys unbounded - invisible structurally), stack depth, work bounds, panics inside dependencies",
 	})
 }
 
 func init() {
 	registerProperty(&Property{
-		ID:    "C08",
-		Rules: []string{"errflow", "single-decision", "nilres", "ref-store", "continue-honoured", "ptr-fill-guard", "opts-copy-complete", "lookup-table"},
+		ID:          "C08",
+		Rules:       []string{"errflow", "single-decision", "nilres", "ref-store", "continue-honoured", "ptr-fill-guard", "opts-copy-complete", "lookup-table"},
 		Explanation: "The error-discipline template filled from the repository. errflow: in every function reachable from an exported Expand*/Resolve* entry point, every call that can fail (package-internal error-returning functions, the document loader called through its field, DynamicJSONToStruct, Pointer.Get, json.Unmarshal, jsonreference.New) has its error returned directly, or tested by the very next statement with `err != nil` / the stop predicate and the same value returned on that branch, or tested with `err == nil`; blank assignment, a dropped result, an intervening overwrite, a check on another variable, or returning nil in the error branch are violations; two audited exceptions are keyed by caller:callee#n with a reason. single-decision: ContinueOnError is read in exactly one function, a predicate over the error whose body answers 'stop' only under err != nil && !ContinueOnError and does so first. nilres and ref-store (shared with C04/C03) make continuing safe and leave a failed $ref verbatim.",
 		NotCovered:  "that every unresolvable target produces an error inside the dependencies; spurious errors on well-formed input (value-level); that everything not depending on a failed $ref is expanded as it would have been otherwise",
 	})
@@ -93,59 +93,59 @@ func init() {
 
 func init() {
 	registerProperty(&Property{
-		ID:    "C02",
-		Rules: []string{"thread-args", "switch-on-follow", "ref-store", "opts-copy-complete", "loader-shares-state", "entry-wiring"},
-		Explanation: "Bisimilarity is a relation between run-time graphs and is not decided. Decided are the threading disciplines behind 'a $ref is always interpreted relative to the document that textually contains it': at every call between expander family members (found by role) the base-path argument derives only from the caller's own base path, from id re-scoping (setSchemaID), from updateBasePath for the resolver just created, or from RemoteURI() of the normalised ref just followed, and the loader argument only from the caller's loader or from transitiveResolver(current base, the $ref being followed) (thread-args); after a followed $ref, whatever is expanded next receives the transitive resolver and the updated base (switch-on-follow); kept refs are rewritten against the root frame (ref-store).",
+		ID:          "C02",
+		Rules:       []string{"thread-args", "switch-on-follow", "ref-store", "opts-copy-complete", "loader-shares-state", "entry-wiring", "location-prefix"},
+		Explanation: "Bisimilarity is a relation between run-time graphs and is not decided. Decided are the threading disciplines behind 'a $ref is always interpreted relative to the document that textually contains it': at every call between expander family members (found by role) the base-path argument derives only from the caller's own base path, from id re-scoping (setSchemaID), from updateBasePath for the resolver just created, or from RemoteURI() of the normalised ref just followed, and the loader argument only from the caller's loader or from transitiveResolver(current base, the $ref being followed) (thread-args); after a followed $ref, whatever is expanded next receives the transitive resolver and the updated base (switch-on-follow); kept refs are rewritten against the root frame (ref-store). location-prefix: 'same document' and 'below this folder' are never decided by a plain string prefix of one location in another (spec.json vs spec.json2); two genuine defects of that kind were found and repaired.",
 		NotCovered:  "that normalizeURI, transitiveResolver's prefix test or resolveRef's root selection compute the right document (values) - in particular the wrong-document resolutions on multi-hop chains the property text mentions are value-level and invisible to these rules; map iteration order effects",
 	})
 	registerProperty(&Property{
-		ID:    "C09",
-		Rules: []string{"skip-shape", "containers", "ref-clear", "ref-store", "opts-copy-complete", "switch-on-follow", "thread-args", "entry-wiring"},
-		Explanation: "Decides the shape of skip-schemas mode: in the schema expander the statements executed under SkipSchemas call nothing that resolves references, change nothing but the schema's Ref and return the target itself; that Ref store is a root-frame rewrite of a normalised reference (ref-store). In ExpandSpec only the definitions loop is control-dependent on !SkipSchemas; parameters, responses and path items are expanded unconditionally, completely dereferenced and cleared (containers, ref-clear), and the schema below a dereferenced parameter/response is still handed to the schema expander so nested refs are rebased.",
+		ID:          "C09",
+		Rules:       []string{"skip-shape", "containers", "ref-clear", "ref-store", "opts-copy-complete", "switch-on-follow", "thread-args", "entry-wiring", "location-prefix"},
+		Explanation: "Decides the shape of skip-schemas mode: in the schema expander the statements executed under SkipSchemas call nothing that resolves references, change nothing but the schema's Ref and return the target itself; that Ref store is a root-frame rewrite of a normalised reference (ref-store). In ExpandSpec only the definitions loop is control-dependent on !SkipSchemas; parameters, responses and path items are expanded unconditionally, completely dereferenced and cleared (containers, ref-clear), and the schema below a dereferenced parameter/response is still handed to the schema expander so nested refs are rebased. location-prefix: the folder a kept $ref is rebased against is slash-terminated where it is trimmed.",
 		NotCovered:  "that the rebased string designates the same target; that a later full expansion gives the same outcome as a direct one",
 	})
 }
 
 func init() {
 	registerProperty(&Property{
-		ID:    "C17",
-		Rules: []string{"no-goroutines", "lockset", "no-call-under-lock", "globals", "ctx-private", "encode-readonly"},
+		ID:          "C17",
+		Rules:       []string{"no-goroutines", "lockset", "no-call-under-lock", "globals", "ctx-private", "encode-readonly"},
 		Explanation: "The package starts no goroutine (checked), so all concurrency is the caller's and the package's obligations are about what two calls can share. lockset (go/cfg must-hold): every access to a field of a struct that carries a sync.(RW)Mutex happens with the write lock (writes) or at least the read lock (reads) held on every path, and no return is reachable with a lock held; one audited exception is tied to the who-calls fact that makes it sound. no-call-under-lock: nothing but map operations happens in a locked region; sync.Once is used only through Do with a function that does not re-enter. globals + ctx-private: two calls on independent data share no writable memory other than a caller-supplied cache.",
 		NotCovered:  "that every call returns what it would have returned alone (value statement); thread-safety of swag.NameProvider and other dependencies; caller-implemented caches",
 	})
 	registerProperty(&Property{
-		ID:    "C16",
-		Rules: []string{"globals", "ctx-private", "opts-immutable", "root-readonly"},
-		Explanation: "Inventory of every package-level variable with who-may-write obligations: the package cache is stored only by the function run under sync.Once and every load of it is the receiver of ShallowClone (so neither a caller nor the expander can Set into it or hand it out), ShallowClone returns a fresh map, the default loader is read only where a per-call resolver context is built, the logger is written only during package initialisation, everything else is never written (globals). Resolver contexts and loaders are created per call, built by one constructor, never returned by the API, never held by a global and never handed to a cache (ctx-private). The caller's options are cloned before any internal change (opts-immutable) and cached documents are never written through (root-readonly).",
+		ID:          "C16",
+		Rules:       []string{"globals", "ctx-private", "opts-immutable", "root-readonly", "cwd-at-call-time"},
+		Explanation: "Inventory of every package-level variable with who-may-write obligations: the package cache is stored only by the function run under sync.Once and every load of it is the receiver of ShallowClone (so neither a caller nor the expander can Set into it or hand it out), ShallowClone returns a fresh map, the default loader is read only where a per-call resolver context is built, the logger is written only during package initialisation, everything else is never written (globals). Resolver contexts and loaders are created per call, built by one constructor, never returned by the API, never held by a global and never handed to a cache (ctx-private). The caller's options are cloned before any internal change (opts-immutable) and cached documents are never written through (root-readonly). cwd-at-call-time: the process working directory is read by ordinary functions at call time, never in a package-level initialiser, init() or under sync.Once.",
 		NotCovered:  "documents being loaded afresh as an observed fact (follows from these rules plus C18's, not separately observed)",
 	})
 }
 
 func init() {
 	registerProperty(&Property{
-		ID:    "C18",
-		Rules: []string{"load-once", "canon-key", "globals", "root-registered", "loader-shares-state"},
+		ID:          "C18",
+		Rules:       []string{"load-once", "canon-key", "globals", "root-registered", "loader-shares-state"},
 		Explanation: "Transparency of results is value-level and not decided. Decided: the document loader (a func-typed field of the resolver context, found by role) is called at exactly one site, which is the field's only reader; that call is reachable only on the miss branch of a cache lookup; lookup, loader call and cache fill use one key variable assigned once from normalizeBase; every successful return after the load (go/cfg) has stored the decoded document under that key (load-once). Every other cache Get/Set uses a key produced by the normaliser, with the fragment cleared (canon-key), so 'already present in the supplied cache' is decided on the key the loader would be called with. The default cache is a clone of the built-in one (globals).",
 		NotCovered:  "that results are identical with and without a cache (values); the behaviour of caller-supplied cache implementations",
 	})
 	registerProperty(&Property{
-		ID:    "C11",
-		Rules: []string{"canon-entry", "canon-key", "entry-wiring", "canon-normalizer"},
-		Explanation: "Equality of results across spellings and idempotence of normalizeBase are value-level and not decided. Decided: every base location that enters through the API passes through the normaliser before it can reach a loader, a cache key or a family call: the options cloner replaces a non-empty RelativeBase by normalizeBase of itself and returns the clone; the pseudo-root helper returns a normalizeBase result; the loader factory substitutes it when no base is given; every entry point takes its base from the cloned options or from the pseudo-root helper (entry-wiring); every cache key and the argument of the document loader are normaliser results with the fragment cleared (canon-key).",
+		ID:          "C11",
+		Rules:       []string{"canon-entry", "canon-key", "entry-wiring", "canon-normalizer", "cwd-at-call-time"},
+		Explanation: "Equality of results across spellings and idempotence of normalizeBase are value-level and not decided. Decided: every base location that enters through the API passes through the normaliser before it can reach a loader, a cache key or a family call: the options cloner replaces a non-empty RelativeBase by normalizeBase of itself and returns the clone; the pseudo-root helper returns a normalizeBase result; the loader factory substitutes it when no base is given; every entry point takes its base from the cloned options or from the pseudo-root helper (entry-wiring); every cache key and the argument of the document loader are normaliser results with the fragment cleared (canon-key). cwd-at-call-time: relative spellings are anchored at the working directory read at the time of the call.",
 		NotCovered:  "that normalizeBase's output is scheme-present/absolute/cleaned and that it is idempotent (its contract: values); equality of expansion results across spellings",
 	})
 }
 
 func init() {
 	registerProperty(&Property{
-		ID:    "C10",
-		Rules: []string{"entry-wiring", "opts-immutable", "root-readonly", "visit", "cut-check", "root-registered", "opts-copy-complete"},
+		ID:          "C10",
+		Rules:       []string{"entry-wiring", "opts-immutable", "root-readonly", "visit", "cut-check", "root-registered", "opts-copy-complete"},
 		Explanation: "Sibling cross-check of the exported entry points: every Expand*/Resolve* function that builds a loader does so through the loader factory with a fresh context, with options that are either the clone of the caller's or a literal based on the pseudo-root location, passes to the expander family as base path the RelativeBase of those very options, and - for the *WithRoot / ExpandSchema variants - registers the root through the pseudo-root helper in the same cache value the loader receives, for the same root (entry-wiring). The caller's *ExpandOptions flows only into the cloner, which copies by value and never writes through its parameter (opts-immutable). The root and cached documents are only read (root-readonly). Because all entry points reach the same family members, visit and cut-check (completeness, termination mechanism) hold for each.",
 		NotCovered:  "agreement of results between entry points (values); aliasing between the element and the root when the caller shares storage",
 	})
 	registerProperty(&Property{
-		ID:    "C05",
-		Rules: []string{"resolve-pure", "root-readonly", "errflow", "resolve-strict", "typed-nil-guard", "lookup-table"},
+		ID:          "C05",
+		Rules:       []string{"resolve-pure", "root-readonly", "errflow", "resolve-strict", "typed-nil-guard", "lookup-table"},
 		Explanation: "Decided: no Resolve* entry point reaches an expander or the chain dereference, so nested $refs are not followed (resolve-pure); root and cached documents flow only to nil tests, jsonpointer.Pointer.Get, the data argument of swag.DynamicJSONToStruct, cache.Set and returns of the loading method - never the base of a store, a type assertion or a decode target - and the result reaches the caller only through DynamicJSONToStruct, i.e. a deep copy (root-readonly); every error from load, Pointer.Get and DynamicJSONToStruct reaches the caller, so a reference that designates nothing cannot yield a zero value with a nil error through a swallowed error (errflow).",
 		NotCovered:  "that the URI/pointer arithmetic designates the right node; pointer escape decoding (jsonpointer); equality of the three ways of supplying the root (the typed-versus-generic half is C15's rule)",
 	})
@@ -153,9 +153,9 @@ func init() {
 
 func init() {
 	registerProperty(&Property{
-		ID:    "C07",
-		Rules: []string{"codec-no-panic", "bounded-recursion", "encoder-constants-decodable", "total-order", "map-order"},
-		Explanation: "Decides the totality half structurally. codec-no-panic: in every function reachable from any UnmarshalJSON, MarshalJSON, GobEncode, GobDecode, fromMap or JSONLookup method (static callees plus sort.Interface methods) there is no panic-capable construct: no Must*/panic call, no single-result type assertion outside a type switch, every index on the input bytes is dominated by a length guard that implies it is in range, every other index/slice expression is bounded by its loop, and every store into a field map is dominated by the nil-check-and-make idiom or targets a freshly made map. bounded-recursion: no codec method lies on a static call cycle, and none hands its own whole input (or receiver) back to encoding/json at a type whose method set resolves to that very method; recursion therefore only goes through encoding/json on strictly nested values, bounded by its nesting limit.",
+		ID:          "C07",
+		Rules:       []string{"codec-no-panic", "bounded-recursion", "encoder-constants-decodable", "total-order", "map-order", "err-before-use", "absence-is-nil"},
+		Explanation: "Decides the totality half structurally. codec-no-panic: in every function reachable from any UnmarshalJSON, MarshalJSON, GobEncode, GobDecode, fromMap or JSONLookup method (static callees plus sort.Interface methods) there is no panic-capable construct: no Must*/panic call, no single-result type assertion outside a type switch, every index on the input bytes is dominated by a length guard that implies it is in range, every other index/slice expression is bounded by its loop, and every store into a field map is dominated by the nil-check-and-make idiom or targets a freshly made map. bounded-recursion: no codec method lies on a static call cycle, and none hands its own whole input (or receiver) back to encoding/json at a type whose method set resolves to that very method; recursion therefore only goes through encoding/json on strictly nested values, bounded by its nesting limit. err-before-use: inside the codecs no pointer result is dereferenced before its error is tested. absence-is-nil: an early return that leaves the receiver untouched is taken on nil tests only, so a present \"\" or 0 is not normalised away differently on the second pass.",
 		NotCovered:  "the fixed-point law decode.encode.decode.encode = decode.encode (value-level; e.g. \"items\": [] -> null is not detected); panics or hangs inside dependencies; stack depth of encoding/json itself",
 	})
 }
